@@ -4,7 +4,7 @@ CONSTANTS
   UnitSeq <- Units
   MaxBody = 1
   Framings = {"cl", "chunked", "close"}
-  Kinds = {"ok", "refuse", "blackhole", "garbage", "badhdr", "badcl", "badchunk"}
+  Kinds = {"ok", "refuse", "blackhole", "noread", "garbage", "badhdr", "badcl", "badchunk"}
   CutCodes <- Codes_cut
   UpModes = {"free"}
   Requests <- Req_one
